@@ -1259,7 +1259,7 @@ udp_ep_init(
 	ep->copymax          = NNG_UDP_COPYMAX;
 	ep->max_peers        = NNG_UDP_MAX_PEERS;
 	if ((rv = nni_msg_alloc(&ep->rx_payload, ep->rcvmax) != 0)) {
-		NNI_FREE_STRUCTS(ep->tx_ring.descs, NNG_UDP_TXQUEUE_LEN);
+		// the core calls udp_ep_fini on failure, which frees the ring
 		return (rv);
 	}
 
